@@ -221,6 +221,16 @@ func (c *Conn) CutWriteAfter(k int) {
 	}
 }
 
+// FailWrites makes every further Write of this end fail with a reset error while
+// the read direction stays open: the connection still looks healthy to its owner.
+func (c *Conn) FailWrites() {
+	c.w.mu.Lock()
+	if c.w.werr == nil {
+		c.w.werr = errReset
+	}
+	c.w.mu.Unlock()
+}
+
 // Written returns the number of bytes this end wrote so far.
 func (c *Conn) Written() int { c.w.mu.Lock(); defer c.w.mu.Unlock(); return c.w.total }
 
